@@ -39,6 +39,11 @@ type RunResult struct {
 }
 
 func hasPropClause(c *Contract, prop string) bool {
+	for _, p := range c.Props {
+		if p == prop {
+			return true
+		}
+	}
 	chk := func(cls []*Clause) bool {
 		for _, cl := range cls {
 			for _, t := range cl.Tags {
